@@ -73,7 +73,7 @@ def psd_checks(which):
     I = get('prysm.interferogram')
     H, W = int(rng.integers(3, 13)), int(rng.integers(3, 13))
     dx = float(rng.uniform(0.05, 2.0))
-    z = rng.standard_normal((H, W))
+    z = vary_layout(rng, rng.standard_normal((H, W)))      # any memory layout
     wname = [None, 'hann', 'welch', 'user', 'user-bool', 'user-uint8'][int(rng.integers(0, 6))]
     win = rng.random((H, W)) + 0.1 if wname == 'user' else wname
     if wname == 'user-bool':
